@@ -4,7 +4,8 @@ CONSTANTS
   MaxLen = 3
   KeyWithoutType = FALSE
   FirstIndexOnly = FALSE
-  NameSet = {"X", "W", "Name", "AName", "nosuch", "x", "Cust", "V", "Uelan"}
+  ShapeSet = {"S4", "S6", "S9", "S12", "S14", "any", "mii"}
+  NameSet = {"X", "Name", "AName", "nosuch", "Cust", "W", "Uelan"}
 INVARIANTS
   CacheUnobservable
   Bounded
